@@ -224,6 +224,26 @@ def judge(ctx, case):
                 ctx.viol("%s rejects a valid SHA-256 signature" % fld, {})
         if res["pub_verify_message"].get("ok") is not True:
             ctx.viol("PublicKey::verify_message rejects a valid SHA-256 signature", {})
+    # the same key presented in the OTHER SEC1 form verifies as well (a key is a point, not an encoding) - and this call sits between
+    # the genuine verification and the negated-key one below on purpose
+    oth = ec.ser(ec.mul_g(x), not case["compressed"]).hex()
+    res_o, _ = lib_accepts(case["msg"], hsh, oth)
+    ctx.ev()
+    ctx.hit("verify_other_encoding")
+    if res_o is not None:
+        for fld in ("verify_digest", "verify_hashbuf") + (("sig_verify_message", "pub_verify_message", "pub_is_valid_message") if hsh == "sha256" else ()):
+            if res_o[fld].get("ok") is not True:
+                ctx.viol("%s rejects a valid signature when the signer's key is given in the other SEC1 form" % fld, {"resp": str(res_o[fld])[:200]})
+    # genuine key again, then IMMEDIATELY the negated key (same x coordinate, other y) on the same thread
+    lib_accepts(case["msg"], hsh, o["pub"])
+    negk = ec.ser(ec.mul_g(ec.N - x), case["compressed"]).hex()
+    res_n, _ = lib_accepts(case["msg"], hsh, negk)
+    ctx.ev()
+    ctx.hit("neg_verify")
+    if res_n is not None:
+        for fld in ("verify_digest", "verify_hashbuf") + (("sig_verify_message", "pub_verify_message", "pub_is_valid_message") if hsh == "sha256" else ()):
+            if res_n[fld].get("ok") is True:
+                ctx.viol("%s accepts the signature under the negated key right after a genuine verification" % fld, {})
     # negatives
     other_msg = (m + b"\x01").hex() if len(m) < 1000 else m[:-1].hex()
     other_hash = "sha256d" if hsh == "sha256" else "sha256"
